@@ -136,7 +136,8 @@ class InjectedBase(BaseException):
         self.tag = tag
 
 
-FAULT_TYPES = (InjectedFault, TypeError, ValueError, LookupError, InjectedBase, RuntimeError)
+FAULT_TYPES = (InjectedFault, TypeError, ValueError, LookupError, InjectedBase, RuntimeError,
+               AttributeError, KeyError, IndexError, OSError, AssertionError)
 
 
 def make_fault(kind, tag):
@@ -508,6 +509,9 @@ def make_ref_source(world, plan, as_container=False):
     src = Source(world, plan)
     if as_container and plan.flavour in ("list", "tuple"):
         src.obj = list(plan.items) if plan.flavour == "list" else tuple(plan.items)
+    elif plan.flavour == "getitem":
+        # the sequence protocol treats IndexError as the end: the reference must see the same object kind
+        src.obj = GetItemSeq(src)
     else:
         src.obj = SyncIter(src)
     return src
